@@ -109,6 +109,13 @@ theorem base_mem_iff_name_mem {v : Var} {rs : List Var} (hp : ∀ r ∈ rs, r.is
     have : r = v.base := by rw [this]; exact Var.base_eq_iff.mpr hn
     exact this ▸ hr
 
+theorem nodup_names_of_plain {rs : List Var} (hp : ∀ r ∈ rs, r.isPlain = true) (hn : rs.Nodup) :
+    (rs.map (·.name)).Nodup := by
+  refine (List.nodup_map_iff_inj_on hn).mpr ?_
+  intro a ha b hb e
+  rw [Var.isPlain_iff.mp (hp a ha), Var.isPlain_iff.mp (hp b hb)]
+  exact Var.base_eq_iff.mpr e
+
 theorem nodup_map_base {c : List Var} (h : (c.map (·.name)).Nodup) : (c.map Var.base).Nodup := by
   induction c with
   | nil => simp
